@@ -92,6 +92,9 @@ Separate == /\ stack = <<>> /\ NSep < MaxSep /\ (hist = <<>> \/ Stopped) /\ ~rai
             /\ diags' = DiagsOf(SplitM(file)[1], IF "offset_not_cleared" \in Flags THEN offset ELSE 0)
             /\ UNCHANGED <<file, mode, pastEnd, raised>> /\ Step("separate")
 
+\* once the whole file is the main code again, a diagnostic on it must carry whole-file numbers: the offset of the last
+\* section is dropped (flag stale_offset models code that leaves it in place)
+StoppedOffset == IF "stale_offset" \in Flags THEN offset ELSE 0
 NextSection ==
     /\ idx >= 0 /\ stack # <<>> /\ ~pastEnd /\ ~raised
     /\ Cardinality({k \in 1..Len(hist) : hist[k].a = "next"}) < MaxNext
@@ -111,15 +114,17 @@ NextSection ==
                             /\ UNCHANGED <<pastEnd, raised>>
                        ELSE /\ main' = Flatten(SubSeq(chunks, 1, i + 1)) /\ diags' = DiagsOf(Flatten(SubSeq(chunks, 1, i + 1)), offset)
                             /\ UNCHANGED <<offset, pastEnd, raised>>
-             ELSE /\ pastEnd' = TRUE /\ main' = file /\ diags' = {} /\ UNCHANGED <<offset, raised>>
+             \* the whole file is presented again: no section offset applies any more (flag stale_offset: it is kept)
+             ELSE /\ pastEnd' = TRUE /\ main' = file /\ diags' = {} /\ offset' = StoppedOffset /\ UNCHANGED raised
     /\ UNCHANGED <<file, chunks, mode, stack>> /\ Step("next")
 
 Stop == /\ stack # <<>> /\ ~raised /\ main' = Head(stack) /\ stack' = Tail(stack) /\ diags' = {}
-        /\ UNCHANGED <<file, chunks, idx, mode, offset, pastEnd, raised>> /\ Step("stop")
+        /\ offset' = StoppedOffset
+        /\ UNCHANGED <<file, chunks, idx, mode, pastEnd, raised>> /\ Step("stop")
 \* resolving runs the stop_any_sections hook
 Resolve == /\ idx >= 0 /\ ~raised /\ ~Stopped /\ main' = (IF stack # <<>> THEN Head(stack) ELSE main)
-           /\ stack' = <<>> /\ diags' = {}
-           /\ UNCHANGED <<file, chunks, idx, mode, offset, pastEnd, raised>> /\ Step("resolve")
+           /\ stack' = <<>> /\ diags' = {} /\ offset' = StoppedOffset
+           /\ UNCHANGED <<file, chunks, idx, mode, pastEnd, raised>> /\ Step("resolve")
 
 Done == Stopped /\ (NSep >= MaxSep \/ pastEnd)
 Next == ~Done /\ (Separate \/ NextSection \/ Stop \/ Resolve)
@@ -140,6 +145,8 @@ WholeFileLines == Presenting /\ ExistsSection =>
         /\ d.reported = OrigLine(PresentStart, main, l)
         /\ d.tok = ToString(d.reported)      \* code line i is the i-th line of the original file
 Restored == Stopped => main = file /\ stack = <<>>
+\* whenever the whole file is presented (before separating, past the end, after stopping) no offset is in force
+WholeFileNoOffset == main = file /\ (stack = <<>> \/ pastEnd) => offset = 0
 
 Export == Done => PrintT(<<"VP", ToJson([file |-> file, mode |-> mode, hist |-> hist])>>)
 =============================================================================
